@@ -342,6 +342,9 @@ func (k *c19) isReviewed(f *ssa.Function, expr string, site ...ssa.Instruction) 
 }
 
 func runC19(c *Ctx) {
+	// reviewed reasons of the canonicalizer's table accesses rest on the escape tables being aligned (C05.T1) — and the
+	// canonicalizer is the first thing untrusted bytes meet: its table rules are part of this check
+	runC05(c)
 	c19Reviewed()
 	k := &c19{c: c, nf: c.nullableFields(), counts: map[string]int{}}
 	entries := c.c19Entries()
